@@ -68,7 +68,7 @@ SPEC = {
             {"name": "every prefix, suffix, one-byte deletion and duplication per base", "counter": "enum_cuts"},
             {"name": "all 256 trace-flag bytes injected and round-tripped per base", "counter": "enum_flag_bytes_injected"},
         ]},
-    "rule_extra": ' Every Extract is executed twice over differently pre-filled stacks and must give the same outcome (extract-deterministic). Run e2-threads: case j = 2..8 threads doing 20..200 inject/extract round trips each (random ids, flags, trace state) through ONE shared HttpTraceContext object, under TSan with seeded yields/sleeps; each thread must read back its own context.',
+    "rule_extra": ' Every Extract is executed twice over differently pre-filled stacks and must give the same outcome (extract-deterministic). Run e2-threads: case j = 2..8 threads doing 20..200 inject/extract round trips each (random ids, flags, trace state) through ONE shared HttpTraceContext object, under TSan with seeded yields/sleeps; each thread must read back its own context. Round 2: one round trip in four is extracted into a context that already carries a local span with the ids and flags of the header.',
     "assumptions": ASSUME_COMMON + [
         "must-accept = version != ff, version 00 exactly 55 bytes, higher versions 55 bytes or a '-' and visible ASCII after "
         "the flags, non-zero ids; hex digits of either case and surrounding blanks/tabs are accepted shapes (DESIGN C09); "
